@@ -159,6 +159,16 @@ Construct(LL, ri, batch, weighted) ==
     /\ h' = DepositAll(EmptyND(LL, ri, TRUE), batch)
     /\ ghost' = GAddRows({}, batch) /\ UNCHANGED d
 
+(* HistogramND(binnings, frequencies=F, errors2=E): every cell gets a distinct content, *)
+(* so that an operation working on the wrong axis cannot go unnoticed.                  *)
+CodeOf(c, base) == 1 + SumOver(1..Len(c), LAMBDA a : (c[a] - 1) * base^(a - 1))
+FromArrays(LL, ri) ==
+    /\ Live /\ On("FromArrays") /\ h = Null /\ Len(ri) = Len(LL)
+    /\ h' = [EmptyND(LL, ri, TRUE) EXCEPT
+                !.freq = [c \in Cells([a \in 1..Len(LL) |-> Len(LL[a])]) |-> CodeOf(c, 4)],
+                !.err2 = [c \in Cells([a \in 1..Len(LL) |-> Len(LL[a])]) |-> 2 * CodeOf(c, 4) + 1]]
+    /\ ghost' = {<<"arrays">>} /\ UNCHANGED d
+
 Fill(row, w, r) ==
     /\ Live /\ On("Fill") /\ h # Null /\ Len(row) = Dim(h) /\ ~HasNaN(row)
     /\ r = RetOf(h, row)
@@ -182,7 +192,7 @@ Project(axes) ==
     /\ Live /\ On("Project") /\ h # Null /\ d = Null
     /\ \A i \in 1..Len(axes) : axes[i] \in 1..Dim(h)
     /\ \A i, j \in 1..Len(axes) : i # j => axes[i] # axes[j]
-    /\ Len(axes) < Dim(h)
+    /\ Len(axes) < Dim(h) /\ Len(axes) > 0
     /\ d' = Marginal(h, {axes[i] : i \in 1..Len(axes)})
     /\ UNCHANGED <<h, ghost>>
 
@@ -191,13 +201,13 @@ ProjectAgain(axes) ==
     /\ Live /\ On("ProjectAgain") /\ d # Null /\ Dim(d) >= 2
     /\ \A i \in 1..Len(axes) : axes[i] \in 1..Dim(d)
     /\ \A i, j \in 1..Len(axes) : i # j => axes[i] # axes[j]
-    /\ Len(axes) < Dim(d)
+    /\ Len(axes) < Dim(d) /\ Len(axes) > 0
     /\ d' = Marginal(d, {axes[i] : i \in 1..Len(axes)})
     /\ UNCHANGED <<h, ghost>>
 
 (* projection with no axis, a duplicate axis or an unknown axis must be refused *)
 ProjectRefused(axes) ==
-    /\ Live /\ On("ProjectRefused") /\ h # Null
+    /\ Live /\ On("ProjectRefused") /\ h # Null /\ d = Null
     /\ \/ Len(axes) = 0
        \/ \E i \in 1..Len(axes) : axes[i] \notin 1..Dim(h)
        \/ \E i, j \in 1..Len(axes) : i # j /\ axes[i] = axes[j]
@@ -243,6 +253,7 @@ DropD == /\ Live /\ On("DropD") /\ d # Null /\ d' = Null /\ UNCHANGED <<h, ghost
 
 Next ==
     \/ \E LL \in AxisLayouts, ri \in RInclChoices, keep \in BOOLEAN : NewEmpty(LL, ri, keep)
+    \/ \E LL \in AxisLayouts, ri \in RInclChoices : FromArrays(LL, ri)
     \/ \E LL \in AxisLayouts, ri \in RInclChoices, b \in UBatches : Construct(LL, ri, b, FALSE)
     \/ \E LL \in AxisLayouts, ri \in RInclChoices, b \in WBatches : Construct(LL, ri, b, TRUE)
     \/ \E row \in Rows, w \in Weights, r \in RetCands : Fill(row, w, r)
@@ -259,17 +270,18 @@ Next ==
 Spec == Init /\ [][Next]_vars
 
 ---------------------------------------------------------------------------
-RealRows == {t \in ghost : ~HasNaN(t[1])}
+FromRows == ghost # {<<"arrays">>}
+RealRows == IF FromRows THEN {t \in ghost : ~HasNaN(t[1])} ELSE {}
 
 (* C02: every cell holds the weight of the rows whose every coordinate lies in that axis' bin. *)
 CellContents ==
-    h # Null => \A c \in DOMAIN h.freq :
+    (h # Null /\ FromRows) => \A c \in DOMAIN h.freq :
         /\ h.freq[c] = SumOver({t \in RealRows : Inside(h, t[1]) /\ CellOf(h, t[1]) = c}, LAMBDA t : t[2] * t[3])
         /\ h.err2[c] = SumOver({t \in RealRows : Inside(h, t[1]) /\ CellOf(h, t[1]) = c}, LAMBDA t : t[2] * t[2] * t[3])
 
 (* C02: total + missed = input weight (tracking on). *)
 MissedAccounting ==
-    (h # Null /\ h.keep) => TotalF(h.freq) + h.missed = SumOver(RealRows, LAMBDA t : t[2] * t[3])
+    (h # Null /\ h.keep /\ FromRows) => TotalF(h.freq) + h.missed = SumOver(RealRows, LAMBDA t : t[2] * t[3])
 
 NoKeepNoMissed == (h # Null /\ ~h.keep) => h.missed = 0
 
@@ -291,6 +303,19 @@ ProjectionLaws ==
                         b == Marginal(h, T)
                     IN  a.freq = b.freq /\ a.err2 = b.err2 /\ a.bins = b.bins /\ a.names = b.names
         /\ (Dim(h) = 2 => Transposed(Transposed(h)) = h)
+
+(* C09: a projection equals the histogram built directly from the kept columns whenever no row *)
+(* missed the bins of a dropped axis.                                                           *)
+RestrictRow(row, ks) == [i \in 1..Len(ks) |-> row[ks[i]]]
+ProjectionEqualsDirect ==
+    (h # Null /\ FromRows) =>
+        \A S \in (SUBSET (1..Dim(h))) \ {{}, 1..Dim(h)} :
+            (\A t \in RealRows : \A a \in (1..Dim(h)) \ S : CellOf(h, t[1])[a] \in 1..Len(h.bins[a])) =>
+                LET ks == KeptSeq(h, S)
+                    m == Marginal(h, S)
+                    e0 == EmptyND([i \in 1..Len(ks) |-> h.bins[ks[i]]], [i \in 1..Len(ks) |-> h.rincl[ks[i]]], TRUE)
+                    direct == FoldSet(LAMBDA t, acc : DepositK(acc, RestrictRow(t[1], ks), t[2], t[3]), e0, RealRows)
+                IN  m.freq = direct.freq /\ m.err2 = direct.err2
 
 (* C10: merging conserves totals. *)
 MergeLaws ==
